@@ -98,7 +98,8 @@ class Device(object):
             bind(self.bip, self.annexj, self.mux)
             app.nsap.bind(self.bip, address=addr)
         self.av = WritableAnalogValueObject(objectIdentifier=("analogValue", 1), objectName="av1", presentValue=1.0,
-                                    statusFlags=[0, 0, 0, 0], covIncrement=1.0, description="d")
+                                    statusFlags=[0, 0, 0, 0], covIncrement=1.0,
+                                            description="a description of sixty characters, two segments of fifty")
         self.bv = BinaryValueObject(objectIdentifier=("binaryValue", 1), objectName="bv1", presentValue="inactive",
                                     statusFlags=[0, 0, 0, 0])
         app.add_object(self.av)
@@ -118,6 +119,17 @@ class Device(object):
             self.errors.append("%s: %s" % (type(err).__name__, str(err)[:120]))
         if settle:
             self.settle()
+
+    def inject_deferred(self, frames):
+        """Hand several datagrams to the stack in ONE batch of deferred calls, the way UDPDirector.handle_read hands
+        over what one poll of the sockets found; nothing is caught here: isolation is the event loop's business."""
+        for octets in frames:
+            if self.level == "lan":
+                pdu = PDU(octets, source=Address(TESTER_MAC), destination=Address(DEVICE_MAC))
+            else:
+                pdu = PDU(octets, source=TESTER_TUPLE, destination=DEVICE_TUPLE)
+            _core.deferred(Network.process_pdu, self.net, pdu)
+        self.settle()
 
     def settle(self):
         try:
